@@ -285,13 +285,14 @@ class IpaddrOrHostname(RegularExpressionConversion):
         # We allow underscores in hostnames although this is considered
         # illegal according to RFC1034.
         # Addition: IPv6 addresses are now also accepted
-        expr = (r"(^(\d|[01]?\d\d|2[0-4]\d|25[0-5])\."  # ipaddr
-                r"(\d|[01]?\d\d|2[0-4]\d|25[0-5])\."    # ipaddr cont'd
-                r"(\d|[01]?\d\d|2[0-4]\d|25[0-5])\."    # ipaddr cont'd
-                r"(\d|[01]?\d\d|2[0-4]\d|25[0-5])$)"    # ipaddr cont'd
-                r"|([A-Za-z_][-A-Za-z0-9_.]*[-A-Za-z0-9_])"  # or hostname
-                # or superset of IPv6 addresses (requiring at least one colon)
+        d = "[0-9]"  # ASCII only; \d also matches other Unicode digits
+        octet = f"({d}|[01]?{d}{d}|2[0-4]{d}|25[0-5])"
+        expr = (fr"(^{octet}\.{octet}\.{octet}\.{octet}$)"  # ipaddr
+                # or superset of IPv6 addresses (requiring at least one
+                # colon); tried before host names, which may also start
+                # with a hex letter
                 r"|([0-9A-Fa-f:.]+:[0-9A-Fa-f:.]*)"
+                r"|([A-Za-z_][-A-Za-z0-9_.]*[-A-Za-z0-9_])"  # or hostname
                 )
         RegularExpressionConversion.__init__(self, expr)
 
